@@ -1,4 +1,5 @@
 import Cuckoo.Props.C02
+import Cuckoo.Proofs.Serial
 /-!
 # C12 — stream serialization round-trips the table and yields a fully working table
 
@@ -15,39 +16,59 @@ variable {κ ν : Type} [DecidableEq κ]
 theorem write_records (t : Table κ ν) :
     (t.write).hp = t.hp ∧ (t.write).cells = t.cur.cells ∧ (t.write).size = t.size ∧
     (t.write).mlf = t.mlf ∧ (t.write).mhp = t.mhp := by
-  sorry
+  exact ⟨rfl, rfl, rfl, rfl, rfl⟩
 
 /-- reading the image of `src` into any locked destination gives a well-formed table with the source's contents,
 size and settings; `bump` (whether the resize generation is advanced) does not matter for this -/
 theorem read_write_roundtrip (c : Cfg κ) (bump : Bool) (src dst : Table κ ν) (m : AMap κ ν)
     (hs : Inv c src) (hr : Rel c src m) (hsl : AllMig src)
     (hd : Inv c dst) (hdl : AllMig dst)
-    (hmlf : (src.mlf < 0.0) = false ∧ (src.mlf > 1.0) = false) :
+    (hmlf : (src.mlf < 0.0) = false ∧ (src.mlf > 1.0) = false) (hhp : src.hp ≤ src.mhp) :
     (dst.read c bump src.write).2 = .ok () ∧
     Inv c (dst.read c bump src.write).1 ∧ AllMig (dst.read c bump src.write).1 ∧
     Rel c (dst.read c bump src.write).1 m ∧
     (dst.read c bump src.write).1.size = src.size ∧
     (dst.read c bump src.write).1.mlf = src.mlf ∧ (dst.read c bump src.write).1.mhp = src.mhp ∧
     (dst.read c bump src.write).1.cur.cells = src.cur.cells ∧ (dst.read c bump src.write).1.hp = src.hp := by
-  sorry
+  have e : dst.read c bump src.write = (dst.readFinal c bump src, .ok ()) := read_ok c bump dst src.write hmlf hhp
+  rw [e]
+  have hsum := readFinal_sumCnt c bump dst src hd
+  have hsz : (src.size : Int) = (m.length : Int) := by
+    have h : src.size = src.sumCnt.toNat := rfl
+    rw [h, hr.count, Int.toNat_natCast]
+  refine ⟨rfl, readFinal_inv c bump dst src hs hd hdl, readFinal_allMig c bump dst src hdl, ?_, ?_, rfl, rfl, rfl, rfl⟩
+  · refine ⟨fun k v => (hr.pairs k v).trans ?_, hr.nodup, hsum.trans hsz⟩
+    constructor
+    · rintro ⟨tag, hl⟩
+      exact ⟨tag, (readFinal_live c bump dst src hsl hdl _).mpr hl⟩
+    · rintro ⟨tag, hl⟩
+      exact ⟨tag, (readFinal_live c bump dst src hsl hdl _).mp hl⟩
+  · have h : (dst.readFinal c bump src).size = (dst.readFinal c bump src).sumCnt.toNat := rfl
+    rw [h, hsum, Int.toNat_natCast]
 
 /-- the whole size is booked on stripe 0 and every other counter is 0 (so later per-stripe updates keep the sum exact) -/
 theorem read_counters (c : Cfg κ) (bump : Bool) (src dst : Table κ ν) (hs : Inv c src) (hd : Inv c dst) :
     (dst.read c bump src.write).1.sumCnt = (src.size : Int) := by
-  sorry
+  have h : (dst.read c bump src.write).1.sumCnt = (dst.readCore c bump src.write).sumCnt := by
+    unfold Table.sumCnt
+    rw [(read_locks c bump dst src.write).1]
+    rfl
+  rw [h]
+  exact readCore_sumCnt c bump dst src.write hd
 
 /-- with `bump = true` (the repaired code) extraction advances the resize generation, so operations that were
 parked on a lock re-validate and restart -/
 theorem read_bumps_generation (c : Cfg κ) (src dst : Table κ ν) :
     (dst.read c true src.write).1.rc = dst.rc + 1 ∧ (dst.read c false src.write).1.rc = dst.rc := by
-  sorry
+  exact ⟨(read_locks c true dst src.write).2, (read_locks c false dst src.write).2⟩
 
 /-- afterwards the destination is an ordinary table: any operation sequence on it refines the map `m` -/
 theorem usable_after_read (c : Cfg κ) (bump : Bool) (src dst : Table κ ν) (m : AMap κ ν)
     (hs : Inv c src) (hr : Rel c src m) (hsl : AllMig src) (hd : Inv c dst) (hdl : AllMig dst)
-    (hmlf : (src.mlf < 0.0) = false ∧ (src.mlf > 1.0) = false) (ops : List (C02.Op κ ν)) :
+    (hmlf : (src.mlf < 0.0) = false ∧ (src.mlf > 1.0) = false) (hhp : src.hp ≤ src.mhp) (ops : List (C02.Op κ ν)) :
     ∃ m', C02.specRun true m ops (C02.run c ⟨(dst.read c bump src.write).1, true⟩ ops).2 m' ∧
       C02.Good c (C02.run c ⟨(dst.read c bump src.write).1, true⟩ ops).1 m' := by
-  sorry
+  obtain ⟨_, hi, ha, hrel, _⟩ := read_write_roundtrip c bump src dst m hs hr hsl hd hdl hmlf hhp
+  exact C02.seq_refines c ops ⟨(dst.read c bump src.write).1, true⟩ m ⟨hi, hrel, fun _ => ha⟩
 
 end Cuckoo.Props.C12
